@@ -136,7 +136,9 @@ def replay_obj(ctx, c, kind, why, res, extra=None):
 
 
 def harness(ctx, plans, frm, double, file_pct, kills, out_name, only=None):
-    args = ["-plans", str(plans), "-from", str(frm), "-tier", ctx.tier, "-double", str(double), "-file", str(file_pct), "-kills", str(kills)]
+    # thorough: runs of at most 40 writes get EVERY recovery's write prefixes as second crash points
+    args = ["-plans", str(plans), "-from", str(frm), "-tier", ctx.tier, "-double", str(double), "-file", str(file_pct), "-kills", str(kills),
+            "-doublesmall", "0" if ctx.tier == "quick" else "40"]
     if only is not None:
         args += ["-only", ",".join(str(i) for i in only)]
     return ctx.harness("recover", args, out_name=out_name, timeout=3000)
@@ -175,7 +177,7 @@ def classify(ctx, which, live, res, known):
     return out
 
 
-def run_check(ctx, which, plans_quick, plans_thorough, frm, double_quick=4, double_thorough=100, file_thorough=25, kills_thorough=200):
+def run_check(ctx, which, plans_quick, plans_thorough, frm, double_quick=4, double_thorough=8, file_thorough=25, kills_thorough=200):
     """which: 'C09' or 'C10'."""
     proofs_ok = ctx.static_and_proofs("resume")
     t_r = time.time()
